@@ -290,6 +290,28 @@ func cmdCheck(args []string) {
 				continue
 			}
 			solveAll(vc2.obls, opts2)
+			// what is still undecided is tried with other solver seeds as well (any unsat answer is a proof)
+			for _, alt := range []int{0, seed + 101, seed + 202} {
+				if alt == opts2.seed {
+					continue
+				}
+				var rest []*Obligation
+				for _, o := range vc2.obls {
+					if !o.ok() && o.Result != "sat" && o.Result != "disagree" && !o.ExpectSat {
+						o.Result = ""
+						rest = append(rest, o)
+					}
+				}
+				if len(rest) == 0 || len(rest) > 24 {
+					for _, o := range rest {
+						o.Result = "timeout"
+					}
+					break
+				}
+				o3 := opts2
+				o3.seed = alt
+				solveAll(rest, o3)
+			}
 			bad1, bad2 := 0, 0
 			for _, o := range vcs[i].obls {
 				if !o.ok() {
